@@ -16,6 +16,7 @@ import (
 	"sync/atomic"
 	"time"
 
+	"github.com/0xReLogic/Helios/internal/circuitbreaker"
 	"github.com/0xReLogic/Helios/internal/config"
 	"github.com/0xReLogic/Helios/internal/loadbalancer"
 	vh "github.com/0xReLogic/Helios/internal/verifh"
@@ -655,6 +656,97 @@ func init() {
 			o.Distinct(vh.J(c))
 			if c.At == 2 && c.Round == 0 {
 				o.Sample(map[string]any{"part": "stop-during-fanout", "case": c, "hook_calls": calls.Load()})
+			}
+		})
+}
+
+// ---- the breaker alone under the race detector: open periods of a fraction of a millisecond, so that opening,
+// half-open trials, re-opening and closing overlap with admissions and refusals thousands of times per run; readers of
+// State and Counts and a state-change callback that calls back into the breaker run alongside
+func init() {
+	type c12Hammer struct {
+		FT, ST, MR int
+		TimeoutUs  int `json:"timeout_us"`
+		G          int `json:"goroutines"`
+	}
+	vh.AddPart("C12", "breaker-hammer", "race", vh.Opts{Shards: 3, Procs: 8, TimeoutS: 300, TimeoutSThorough: 900},
+		func(e *vh.Env) []c12Hammer {
+			var cs []c12Hammer
+			for _, cf := range [][3]int{{1, 1, 1}, {2, 2, 3}, {3, 1, 2}} {
+				for _, us := range []int{100, 400, 1500} {
+					cs = append(cs, c12Hammer{cf[0], cf[1], cf[2], us, 8})
+				}
+			}
+			return cs
+		},
+		func(e *vh.Env, c c12Hammer, o *vh.Out) {
+			o.Need("breaker_calls", "breaker_state_changes")
+			var changes atomic.Int64
+			var cb *circuitbreaker.CircuitBreaker
+			cb = circuitbreaker.NewCircuitBreaker(circuitbreaker.Settings{Name: "h", MaxRequests: uint32(c.MR), Interval: 5 * time.Millisecond, Timeout: time.Duration(c.TimeoutUs) * time.Microsecond,
+				FailureThreshold: uint32(c.FT), SuccessThreshold: uint32(c.ST),
+				OnStateChange: func(string, circuitbreaker.State, circuitbreaker.State) {
+					changes.Add(1)
+					_, _, _ = cb.Counts() // what the balancer's callback does
+				}})
+			n := e.Pick(20000, 100000)
+			var wg sync.WaitGroup
+			var calls atomic.Int64
+			done := make(chan struct{})
+			for g := 0; g < c.G; g++ {
+				g := g
+				wg.Add(1)
+				go func() {
+					defer wg.Done()
+					r := rand.New(rand.NewSource(e.Seed*7907 + int64(g)))
+					for i := 0; i < n; i++ {
+						fail := r.Intn(3) == 0
+						_ = cb.Execute(func() error {
+							if r.Intn(64) == 0 {
+								runtime.Gosched()
+							}
+							if fail {
+								return fmt.Errorf("scripted failure")
+							}
+							return nil
+						})
+						calls.Add(1)
+					}
+				}()
+			}
+			go func() {
+				for {
+					select {
+					case <-done:
+						return
+					default:
+						_ = cb.State()
+						_, _, _ = cb.Counts()
+						runtime.Gosched()
+					}
+				}
+			}()
+			fin := make(chan struct{})
+			go func() { wg.Wait(); close(fin) }()
+			select {
+			case <-fin:
+			case <-time.After(120 * time.Second):
+				stuck, _ := c12Stalled()
+				c12Wedged = true
+				if stuck != "" {
+					o.Viol("C12|deadlock|"+c12StallFrame(stuck), fmt.Sprintf("%s: callers of Execute stay parked on a lock with an unchanged stack over 8 s (%d calls done)", vh.J(c), calls.Load()), map[string]any{"stuck_goroutines": trunc(stuck, 6000)})
+				} else {
+					o.Inconcl("breaker hammer %s not finished after 120 s", vh.J(c))
+				}
+				return
+			}
+			close(done)
+			o.Eval(1)
+			o.Distinct(vh.J(c))
+			o.Obs("breaker_calls", calls.Load())
+			o.Obs("breaker_state_changes", changes.Load())
+			if c.TimeoutUs == 400 && c.FT == 2 {
+				o.Sample(map[string]any{"part": "breaker-hammer", "case": c, "calls": calls.Load(), "state_changes": changes.Load()})
 			}
 		})
 }
